@@ -26,7 +26,16 @@ func NewHierarchyFilter(delimiter []byte, maxLevels int, splitInput bool) *Hiera
 }
 
 func (s *HierarchyFilter) Filter(input analysis.TokenStream) analysis.TokenStream {
-	rv := make(analysis.TokenStream, 0, s.maxLevels)
+	// maxLevels defaults to math.MaxInt64 when the config has no "max":
+	// never pre-size beyond what the input can produce
+	capHint := len(input)
+	if s.maxLevels < capHint {
+		capHint = s.maxLevels
+	}
+	if capHint < 0 {
+		capHint = 0
+	}
+	rv := make(analysis.TokenStream, 0, capHint)
 
 	var soFar [][]byte
 	for _, token := range input {
